@@ -47,6 +47,12 @@ CHECKS = {
   level="Generated programs x values x fault sets (single faults enumerated per value, multi faults sampled); checks propagation, nil error without faults, and location accuracy for both wrapping modes. Exploration / fault enumeration within each value.",
   note="Location oracle for wrapErrors is the subsequence rule (independent of where goverter places sub-method boundaries).",
   design="5/C07"),
+ "C08": dict(
+  engine="E-run + E-gen",
+  technique="property-based testing: rapid enum-pair generator; generation outcome differential against the rule model, runtime differential over all member values plus generated non-member values against the model's value mapping and unknown policy",
+  level="Generated enum programs x configurations x member/non-member values; checks totality, name-driven mapping precedence (map > transformer > name), duplicate handling and the exact unknown policy at run time. Exploration.",
+  note="Map iteration order makes the first failing entry of a map unspecified; the oracle accepts any of the failures the reference finds.",
+  design="5/C08"),
 }
 
 def main():
